@@ -337,7 +337,7 @@ func GenEdge(t *rapid.T, lbl string) *model.Element {
 }
 
 // invalid elements: blank id/label/endpoints, reserved or invalid property names
-func genInvalid(t *rapid.T, lbl string) *model.Element {
+func GenInvalid(t *rapid.T, lbl string) *model.Element {
 	if rapid.Bool().Draw(t, lbl+".invalidEdge") {
 		e := GenEdge(t, lbl)
 		switch rapid.IntRange(0, 4).Draw(t, lbl+".how") {
@@ -381,7 +381,7 @@ func GenOp(t *rapid.T, i int, invalid bool) Op {
 		return Op{Kind: "deleteGraph", Graph: gname}
 	case k < 32:
 		if invalid && rapid.IntRange(0, 9).Draw(t, lbl+".inv") == 0 {
-			e := genInvalid(t, lbl)
+			e := GenInvalid(t, lbl)
 			if e.Edge {
 				return Op{Kind: "addEdge", Graph: gname, Elems: []*model.Element{e}}
 			}
